@@ -6,7 +6,7 @@ copied from the .pyx so that importing modules can reference them."""
 from __future__ import annotations
 
 import enum
-from typing import NamedTuple, Optional, List, Tuple
+from typing import NamedTuple, List, Tuple
 
 __vrt_stub__ = True
 
